@@ -1,6 +1,7 @@
 import PgmVerif.Props.C07
 open PgmVerif
 #print axioms PgmVerif.C07_gibbs_kernel_local
+#print axioms PgmVerif.C07_gibbs_kernel_normalised
 #print axioms PgmVerif.C07_lw_weight
 #print axioms PgmVerif.C07_zero_mass
 #print axioms PgmVerif.C07_forward_step
